@@ -244,9 +244,13 @@ func ModuleEntries() []Entry {
 		}},
 		{Name: "types", Build: func(f *Frag) {
 			p := f.P
-			switch f.N("form", 11) {
+			switch f.N("form", 12) {
 			case 9: // non-struct type alias
 				f.TopLine("%%%st = type i32", p)
+				f.TopLine("@%sg = global %%%st 5", p, p)
+			case 11: // alias of an alias
+				f.TopLine("%%%sx = type i32", p)
+				f.TopLine("%%%st = type %%%sx", p, p)
 				f.TopLine("@%sg = global %%%st 5", p, p)
 			case 10: // alias of pointer/array types used in an instruction
 				f.TopLine("%%%sp = type i32*", p)
